@@ -121,7 +121,7 @@ def gen(rng, tier):
             ps['after'] = [['set', rng.randrange(nv), lib.fhex(7.0)]] if rng.random() < 0.8 else [['raise', 12]]
         if rng.random() < 0.08 and ncheck:
             c['vals'][check[0]][p] = lib.fhex(rng.choice(sc.PALETTE_BAD))
-        c['scripts'] = {str(p): ps}
+        c['scripts'] = sc.with_list_assignments(rng, {str(p): ps}, 0.2, check or (0,))     # some stores as whole-series list assignments
         if rng.random() < 0.2:
             c['entry'] = 'solve_period'
         if rng.random() < 0.1:
@@ -176,7 +176,7 @@ def gen(rng, tier):
                 c['opts'] = sc.with_omitted(c['opts'], omit)
                 c['entry'] = entry
                 c['vals'][0][1] = lib.fhex(1.0)
-                c['scripts'] = {'1': ps}
+                c['scripts'] = sc.with_list_assignments(rng, {'1': ps}, 0.3)
                 fixed.append(c)
     return fixed + cases + span_cases(rng, tier) + [sc.hist_case(rng, errs=('raise',) * 5 + ('ignore',)) for _ in range(400 if tier == 'quick' else 4000)]
 
